@@ -29,6 +29,31 @@ let table_op ~(valid : bool) (n : nat) (expected : string) (f : n -> bool) : boo
     let r = p_lut expected in
     Some (int_of_nat r.nv = int_of_nat n && chk_table n r.tbl f)
 
+
+(* ---- C18: the forms returned by the MIP optimizers are valid, and a valid witness is not cheaper.
+   args: functions ; costs... ; witness kind ; witness      result: the returned forms *)
+let mip_check (op : string) (a : string array) (expected : string) : bool =
+  if expected = "panic" then false else
+  let fs = p_lutlist a.(0) in
+  let n = (match fs with f :: _ -> f.nv | [] -> nat_of_int 0) in
+  let tabs = List.map (fun l -> l.tbl) fs in
+  let forms s = if s = "empty" then [] else String.split_on_char '|' s in
+  let na = Array.length a in
+  let wit = a.(na - 1) in
+  match op with
+  | "mipopt_sop" | "mipopt_esop" ->
+     let ret = List.map (fun f -> (p_sop f).scubes) (forms expected) in
+     let w = Some (List.map p_cubes (forms wit)) in
+     if op = "mipopt_sop" then chk_sop_opt n tabs (p_z a.(1)) (p_z a.(2)) ret w
+     else chk_esop_opt n tabs (p_z a.(1)) (p_z a.(2)) ret w
+  | "mipopt_sopes" ->
+     let pair s = (match String.split_on_char '&' s with [c; e] -> (c, e) | _ -> failwith ("bad sopes form " ^ s)) in
+     let ret = List.map (fun f -> let (c, e) = pair f in ((p_sop c).scubes, p_ecubes e)) (forms expected) in
+     let ret_strip = ret in
+     let w = Some (List.map (fun f -> let (c, e) = pair f in (p_cubes c, p_ecubes e)) (forms wit)) in
+     chk_sopes_opt n tabs (p_z a.(1)) (p_z a.(2)) (p_z a.(3)) ret_strip w
+  | _ -> failwith "mip_check"
+
 let check (op : string) (ty : string) (a : string array) (expected : string) : bool option =
   let dyn = (ty = "D") in
   match base_of op with
@@ -84,8 +109,17 @@ let check (op : string) (ty : string) (a : string array) (expected : string) : b
      else if not (wfb n b) then None   (* outside the property's precondition *)
      else table_op ~valid:true n expected (val0 b)
   (* every table-valued result must at least be well formed (C02) *)
-  | "from_hex" -> if expected = "err" || expected = "panic" then None else
-     let r = p_lut (String.sub expected 3 (String.length expected - 3)) in Some (wf_ r && int_of_nat r.nv = int_of_nat (p_nat a.(0)))
+  (* ---- C09: printed text and parsing, from the property text *)
+  | "from_hex" -> let n = p_nat a.(0) and s = p_bytes a.(1) in
+     if int_of_nat n > 16 then None else if expected = "panic" then Some false else
+     if expected = "err" then Some (chk_from_hex n s None) else
+     let r = p_lut (String.sub expected 3 (String.length expected - 3)) in
+     Some (int_of_nat r.nv = int_of_nat n && chk_from_hex n s (Some r.tbl))
+  | "to_hex" | "to_bin" | "display" | "lowerhex" | "binary" as o -> let x = p_lut a.(0) in
+     if not (wf_ x && small x) then None else if expected = "panic" then Some false else
+     let body = (match o with "to_bin" | "binary" -> spec_to_bin x.nv x.tbl | _ -> spec_to_hex x.nv x.tbl) in
+     let full = (match o with "to_hex" | "to_bin" -> body | _ -> spec_fmt x.nv body) in
+     Some (bytes_eqb full (p_bytes expected))
   | "random" -> if expected = "panic" then Some false else let r = p_lut expected in Some (wf_ r)
   (* ---- C08 *)
   | "cmp" -> let x = p_lut a.(0) and y = p_lut a.(1) in
@@ -175,4 +209,5 @@ let check (op : string) (ty : string) (a : string array) (expected : string) : b
   | "x.is_one" -> let x = p_esop a.(0) in
      if int_of_nat x.env > 12 then None else
      Some ((not (p_bool expected)) || List.for_all (fun m -> sem_xor x.ecubes m) (dom x.env))
+  | "mipopt_sop" | "mipopt_sopes" | "mipopt_esop" as o -> Some (mip_check o a expected)
   | _ -> None
